@@ -1086,9 +1086,23 @@ class AttrParser(BaseParser):
             )
             res = DenseArrayBase.from_list(element_type, values)
         else:
+
+            def parse_float_element() -> float:
+                # As in MLIR, a hexadecimal integer literal is the bit pattern of the float
+                token = self._current_token
+                if token.kind == MLIRTokenKind.INTEGER_LIT and token.text[:2] in (
+                    "0x",
+                    "0X",
+                ):
+                    value = self.parse_integer(allow_boolean=False, allow_negative=False)
+                    if value >= 1 << (8 * element_type.compile_time_size):
+                        self.raise_error("Hexadecimal float literal out of range")
+                    raw = value.to_bytes(element_type.compile_time_size, "little")
+                    return next(element_type.iter_unpack(raw))
+                return self.parse_float()
+
             values = self.parse_comma_separated_list(
-                self.Delimiter.NONE,
-                lambda: self.parse_float(),
+                self.Delimiter.NONE, parse_float_element
             )
             res = DenseArrayBase.from_list(element_type, values)
 
